@@ -326,9 +326,11 @@ func cmp(name, got, want string) (string, string) {
 	return got, ""
 }
 
+var fullKeys = []string{"a", "b", "c"}
+
 func fullOps(sizes []int, caps []int64) []seq.Op[*st] {
 	var o []seq.Op[*st]
-	keys := []string{"a", "b", "c"}
+	keys := fullKeys
 	for _, k := range keys {
 		k := k
 		for _, sz := range sizes {
@@ -486,8 +488,13 @@ func main() {
 	r.Rule("breadth-first over all operation sequences (Set/SetIfAbsent/SetAndGetRemoved x keys a,b,c x sizes 0,1,2,5; Get/Peek/Exist/Delete; Clear; SetCapacity 0,1,3,4) on the real cache.LRUCache and tiny.LRUCache until no new state appears, states = (recency order, entry weights, capacity) which is the complete observable state; after every step the call's result, Keys, Items (value identity), Stats/Length/Size/Capacity/Evictions and Size<=Capacity are compared with a slice-based ideal LRU; wide variants (1,2,3 shards, modulo and xxhash) against one ideal LRU per shard with every key probed by Peek/Exist after every step; distinct = (op, result) pairs")
 	r.Assume("SetIfAbsent on a present key may or may not refresh recency (statement silent)", "an item larger than the capacity is evicted together with everything older (strict LRU order)")
 	var jobs []func()
+	sizes, caps := []int{0, 1, 2, 5}, []int64{0, 1, 3, 4}
+	if !r.Quick() {
+		fullKeys = []string{"a", "b", "c", "d"}
+		sizes, caps = []int{0, 1, 2, 3, 5}, []int64{0, 1, 3, 4, 6}
+	}
 	jobs = append(jobs, func() {
-		seq.Explore(r, &seq.Spec[*st]{Name: "cache.LRUCache", Ops: fullOps([]int{0, 1, 2, 5}, []int64{0, 1, 3, 4}), Key: key, After: after, Depth: r.Pick(12, 40),
+		seq.Explore(r, &seq.Spec[*st]{Name: "cache.LRUCache", Ops: fullOps(sizes, caps), Key: key, After: after, Depth: r.Pick(12, 40),
 			New: func() *st { return &st{c: fromCache(cache.NewLRUCache(3)), m: &mlru{capacity: 3}} }})
 	})
 	jobs = append(jobs, func() {
